@@ -28,7 +28,10 @@ CONSTANTS Files,      \* canonical files
           MaxImports, \* maximal number of import statements per file (Init)
           FaultKinds  \* fault kinds Init may assign: subset of AllFaultKinds
 
-AllFaultKinds == {"read", "importsyntax", "body", "foreign"}
+\* read: the reader fails; importsyntax: an import statement that does not parse; body: a syntax error below the
+\* imports; foreign: a specification in another format that cannot be converted; compiled: a compiled model
+\* (.pb, .textpb, .pb.json) that cannot be decoded
+AllFaultKinds == {"read", "importsyntax", "body", "foreign", "compiled"}
 
 VARIABLES
   imports,   \* [Files -> Seq(Files)]: import statements of each file in text order
@@ -48,7 +51,7 @@ Range(s) == {s[i] : i \in DOMAIN s}
 (* Graph helpers: all of them depend on the text only, never on a schedule *)
 
 \* a file whose content cannot yield import statements contributes no edges
-Edges(f) == IF fail[f] \in {"read", "importsyntax", "foreign"} THEN <<>> ELSE imports[f]
+Edges(f) == IF fail[f] \in {"read", "importsyntax", "foreign", "compiled"} THEN <<>> ELSE imports[f]
 
 RECURSIVE Within(_, _)
 \* files at distance <= n from the root
@@ -176,7 +179,8 @@ FinishOutcomes ==
          {[kind |-> "error", files |-> <<>>, culprits |-> {c}] : c \in Errs(1)}
     ELSE LET fl == Flat
              foreign == {f \in Range(fl) : fail[f] = "foreign"}
-             body    == {f \in Range(fl) : fail[f] = "body"}
+             \* a compiled model is decoded with the conversions, but its failure is only looked at by the sequential walk
+             body    == {f \in Range(fl) : fail[f] \in {"body", "compiled"}}
          IN IF foreign # {}      \* parallel conversion: any failing one may be reported
               THEN {[kind |-> "error", files |-> <<>>, culprits |-> {c}] : c \in foreign}
             ELSE IF body # {}    \* sequential walk: the first bad file in list order
